@@ -228,6 +228,23 @@ func runC02(p *core.Prog, r *core.Report) {
 			// handler class
 			got := handlerClass(p, h.handler)
 			r.Check(got == want.class, "C02.R1", name+"/class", "the handler called for this kind implements the "+want.class+" semantics", "handler "+shortFn(h.handler)+" classifies as "+got, h.pos)
+			if want.class == "setsum" {
+				// the set_sum handlers all take the raw prefixed bytes, so the compiler cannot tell them apart: the arithmetic the
+				// handler performs must be the one the enumerator names (Merge adds the same kind with that arithmetic)
+				wantDom := ""
+				switch {
+				case strings.HasSuffix(name, "_INT64"):
+					wantDom = "int64"
+				case strings.HasSuffix(name, "_FLOAT64"):
+					wantDom = "float64"
+				case strings.HasSuffix(name, "_BIG_INT"):
+					wantDom = "bigint"
+				case strings.HasSuffix(name, "_BIG_DECIMAL"):
+					wantDom = "bigdecimal"
+				}
+				gotDom := numericDomain(h.handler, 2)
+				r.Check(wantDom != "" && gotDom == wantDom, "C02.R1", name+"/domain", "the set_sum handler called for this kind adds in the numeric domain the enumerator names ("+wantDom+")", "handler "+shortFn(h.handler)+" computes in "+gotDom, h.pos)
+			}
 		}
 		// no recorder of a dynamic / unknown kind
 		for _, rc := range recs {
@@ -1346,4 +1363,61 @@ func derivesFromParam(v ssa.Value, prm *ssa.Parameter) bool {
 		return false
 	}
 	return false
+}
+
+// numericDomain classifies the arithmetic a function performs from the parsing / arithmetic routines it calls
+// (following same-package helpers up to the given depth).
+func numericDomain(fn *ssa.Function, depth int) string {
+	doms := map[string]bool{}
+	var visit func(f *ssa.Function, d int)
+	seen := map[*ssa.Function]bool{}
+	visit = func(f *ssa.Function, d int) {
+		if f == nil || seen[f] || len(f.Blocks) == 0 {
+			return
+		}
+		seen[f] = true
+		core.Instrs(f, func(in ssa.Instruction) {
+			ci, ok := in.(ssa.CallInstruction)
+			if !ok {
+				return
+			}
+			cl := core.CommonCallee(ci.Common())
+			if cl == nil || cl.Pkg() == nil {
+				return
+			}
+			path, nm := cl.Pkg().Path(), cl.Name()
+			recv := ""
+			if sig, ok := cl.Type().(*types.Signature); ok && sig.Recv() != nil {
+				recv = sig.Recv().Type().String()
+			}
+			switch {
+			case path == "strconv" && (nm == "ParseInt" || nm == "FormatInt" || nm == "Atoi"):
+				doms["int64"] = true
+			case path == "strconv" && (nm == "ParseFloat" || nm == "FormatFloat"):
+				doms["float64"] = true
+			case path == "math/big" && (strings.Contains(recv, "big.Int") || nm == "NewInt"):
+				doms["bigint"] = true
+			case strings.Contains(path, "shopspring/decimal"):
+				doms["bigdecimal"] = true
+			case path == "math/big" && (strings.Contains(recv, "big.Float") || nm == "NewFloat"):
+				doms["bigfloat"] = true
+			}
+			if d > 0 && fn.Pkg != nil && cl.Pkg() == fn.Pkg.Pkg {
+				if sf := core.StaticFn(ci.Common()); sf != nil && sf != fn {
+					// generic store plumbing (set, GetAt ...) carries no arithmetic
+					visit(sf, d-1)
+				}
+			}
+		})
+	}
+	visit(fn, depth)
+	var out []string
+	for k := range doms {
+		out = append(out, k)
+	}
+	sort.Strings(out)
+	if len(out) == 0 {
+		return "none"
+	}
+	return strings.Join(out, "+")
 }
